@@ -58,3 +58,173 @@ def obligations(ctx, cfg):
     q = cfg['tier'] == 'quick'
     n, k = (3, 2) if q else (4, 3)
     return [C05a(ctx), TrackerModify(ctx, n, k), StepModify(ctx, n, 2, k, 'modify', 'C05.d')]
+
+
+# ---------------------------------------------------------------------- handler level: the instant the deadline is counted from
+from framework import run_async, find_values, model_value
+from models_coll import Seq
+from models_core import ok
+from models_str import StrTok, _tok_parse_ok, _tok_parse_val
+from models_async import StreamingM, MergeM, poll_stream_next
+from props.service import sym_managers, proto, request, start_handler, status_code
+from props.C16 import default_reply
+
+
+def _mod_fields(ctx, m):
+    """(ack id term, has_deadline term/bool, deadline term or None) of a DeadlineModification value"""
+    a = ack_of(ctx, fld(ctx, m, 'DeadlineModification', 'ack_id'))
+    nd = fld(ctx, m, 'DeadlineModification', 'new_deadline')
+    d = nd.discr if not isinstance(nd.discr, int) else z3.IntVal(nd.discr)
+    dl = None
+    if 1 in nd.payload:
+        dl = fld(ctx, nd.payload[1][0], 'AckDeadline', 'time').t
+    return a, d, dl
+
+
+class ParseModifications(Obligation):
+    id = 'C05.b-parse-modifications'
+    tier = 'T1'
+    desc = ('parse_deadline_modifications(now, ids, seconds): element i = (ids[i], seconds[i]); 0 -> nack, n>0 -> deadline = AckDeadline(now + min(n, 600) s); '
+            'Err(InvalidArgument) iff some id is malformed or some seconds value is negative; order and count preserved')
+
+    def __init__(self, ctx, n=2):
+        self.n = n
+        self.bounds = {'modifications': n, 'seconds': 'all i32', 'now': 'any instant'}
+        self.unroll = n + 3
+        install_tokens(ctx)
+
+    def body(self, ip, p):
+        ctx = ip.ctx
+        now = p.fresh('now')
+        p.assume(z3.And(E() >= 0, now >= E(), now - E() < (1 << 62) * 1000))
+        ids = [StrTok(p.fresh('mod_ack%d' % i)) for i in range(self.n)]
+        secs = [S(p.fresh('mod_secs%d' % i), 'i32') for i in range(self.n)]
+        for s_ in secs:
+            p.assume(z3.And(s_.t >= -(1 << 31), s_.t < (1 << 31)))
+        k = p.fresh('n_mods')
+        p.assume(z3.And(k >= 0, k <= self.n))
+        r = run_to_end(ip.call_fn(ctx.free_fn('parse_deadline_modifications'),
+                                  [S(now, 'Instant'), Ref(Loc(Cell(Seq(ids, k, 'vec')))), Ref(Loc(Cell(Seq(secs, k, 'vec'))))]))
+        return {'now': now, 'ids': ids, 'secs': secs, 'k': k, 'ret': r}
+
+    def post(self, ip, p, res):
+        ctx = ip.ctx
+        r, k, now = res['ret'], res['k'], res['now']
+        bad = z3.Or([z3.And(k > i, z3.Or(z3.Not(_tok_parse_ok(res['ids'][i].tok)), res['secs'][i].t < 0)) for i in range(self.n)])
+        out = []
+        if r.discr == 1:
+            st = r.payload[1][0]
+            out.append(Claim('rejected only if an id is malformed or a seconds value is negative', bad))
+            out.append(Claim('rejection is InvalidArgument', isinstance(st, StatusV) and st.code == 'invalid_argument'))
+            out.append(Cover('rejected'))
+            return out
+        seq = r.payload[0][0]
+        out.append(Claim('accepted only if every element is well-formed', z3.Not(bad)))
+        out.append(Claim('one modification per element', seq.n == k))
+        for i, m in enumerate(seq.elems):
+            a, d, dl = _mod_fields(ctx, m)
+            n = res['secs'][i].t
+            conj = [a == _tok_parse_val(res['ids'][i].tok), (d == 0) == (n == 0)]
+            if dl is not None:
+                conj.append(z3.Implies(n > 0, dl == rounded(now + z3.If(n >= 600, 600, n) * NS)))
+            out.append(Claim('element %d: same ack id; 0 -> nack; n > 0 -> now + min(n, 600) s (rounded as every deadline)' % i, z3.Implies(k > i, z3.And(conj))))
+        out.append(Cover('accepted with a nack and an extension', z3.And(k == 2, res['secs'][0].t == 0, res['secs'][1].t > 600) if self.n >= 2 else k == 1))
+        return out
+
+    def model_info(self, p, m, res):
+        return {'secs': [model_value(m, s.t) for s in res['secs']], 'k': model_value(m, res['k'])} if res else {}
+
+
+class HandlerBaseInstant(Obligation):
+    tier = 'T3'
+
+    def __init__(self, ctx, streaming):
+        self.streaming = streaming
+        self.id = 'C05.e-%s-base-instant' % ('streaming' if streaming else 'unary')
+        self.desc = ('%s: the ModifyDeadline request handed to the subscription carries deadline = AckDeadline(t + min(n, 600) s) for a clock reading t taken '
+                     'after this request was received (not an earlier one), nack for n = 0, same ack id'
+                     % ('StreamingPull control stream (second message on an open stream)' if streaming else 'ModifyAckDeadline handler'))
+        self.bounds = {'modifications': 1, 'seconds': 'all i32 >= 0', 'time before the request': 'arbitrary'}
+        self.unroll = 6
+        install_tokens(ctx)
+
+    def body(self, ip, p):
+        ctx = ip.ctx
+        ctx.on_enqueue = default_reply
+        h = sym_managers(ctx, p)
+        p.assume(h['subs'][0][0])
+        stok = h['subs'][0][1]
+        U = ctx.tok_ufs
+        regname = mk(ctx, 'SubscriptionName', project_id=StrTok(U['sub_proj'](stok)), subscription_id=StrTok(U['sub_id'](stok)))
+        ip.hooks[r'^parse_subscription_name$'] = lambda ip_, callee, args: (ok(regname),)
+        idtok = p.fresh('mod_ack')
+        p.assume(_tok_parse_ok(idtok))
+        n = p.fresh('mod_secs')
+        p.assume(z3.And(n >= 0, n < (1 << 31)))
+        mark = None
+        if self.streaming:
+            mom = p.fresh('max_outstanding_messages')
+            p.assume(z3.And(mom >= 1, mom < 65536))
+            first = proto(ctx, 'StreamingPullRequest', subscription=StrTok(p.fresh('name_field')), ack_ids=Seq.empty(), modify_deadline_seconds=Seq.empty(),
+                          modify_deadline_ack_ids=Seq.empty(), max_outstanding_messages=S(mom, 'i64'), max_outstanding_bytes=S(p.fresh('mob'), 'i64'))
+            second = proto(ctx, 'StreamingPullRequest', subscription=StrTok(p.fresh('empty_name')), ack_ids=Seq.empty(),
+                           modify_deadline_seconds=Seq([S(n, 'i32')], 1, 'vec'), modify_deadline_ack_ids=Seq([StrTok(idtok)], 1, 'vec'),
+                           max_outstanding_messages=S(z3.IntVal(0), 'i64'), max_outstanding_bytes=S(z3.IntVal(0), 'i64'))
+            from models_str import _tok_len
+            p.assume(_tok_len(second.fields[ctx.src.struct_fields('StreamingPullRequest', 'pubsub_proto_generated').index('subscription')].tok) == 0)
+            fut = start_handler(ip, p, 'subscriber', 'streaming_pull', h['subscriber'], request(StreamingM([first, second])))
+            res, _ = run_async(ip, p, fut, budget=0)
+            if res.discr != 0:
+                return {'setup_failed': True}
+            control = find_values(res, MergeM)[0].a
+            for _ in range(4):
+                r = run_to_end(poll_stream_next(ip, control))
+                if r.discr == 1:
+                    break
+            ret = None
+        else:
+            req = proto(ctx, 'ModifyAckDeadlineRequest', subscription=StrTok(p.fresh('name_field')), ack_ids=Seq([StrTok(idtok)], 1, 'vec'),
+                        ack_deadline_seconds=S(n, 'i32'))
+            fut = start_handler(ip, p, 'subscriber', 'modify_ack_deadline', h['subscriber'], request(req))
+            ret, _ = run_async(ip, p, fut, budget=0)
+        return {'log': list(p.log), 'n': n, 'idtok': idtok, 'ret': ret}
+
+    def post(self, ip, p, res):
+        ctx = ip.ctx
+        if res.get('setup_failed'):
+            return [Claim('stream set up', False)]
+        log = res['log']
+        ev = ip.src.enum_variants('SubscriptionRequest')
+        start = 0
+        if self.streaming:
+            items = [i for i, e in enumerate(log) if e[0] == 'stream-item']
+            # the first message is consumed by the handler itself; the control stream takes the second
+            start = items[-1] if items else len(log)
+        enq = [(i, e) for i, e in enumerate(log) if e[0] == 'enqueue' and e[1] == 'subscription' and ev[e[3].discr][0] == 'ModifyDeadline']
+        out = [Claim('exactly one ModifyDeadline request reached the subscription', len(enq) == 1)]
+        if len(enq) != 1:
+            return out
+        i_enq, e = enq[0]
+        seq = e[3].payload[e[3].discr][0]
+        out.append(Claim('one modification', seq.n == 1))
+        a, d, dl = _mod_fields(ctx, seq.elems[0])
+        n = res['n']
+        out.append(Claim('same ack id', a == _tok_parse_val(res['idtok'])))
+        out.append(Claim('0 -> nack, n > 0 -> extension', (d == 0) == (n == 0)))
+        readings = [x[1] for i, x in enumerate(log) if x[0] == 'clock' and start <= i < i_enq]
+        if dl is not None:
+            out.append(Claim('the deadline is counted from a clock reading taken after this request was received',
+                             z3.Implies(n > 0, z3.Or([dl == rounded(t + z3.If(n >= 600, 600, n) * NS) for t in readings] or [z3.BoolVal(False)]))))
+        out.append(Cover('extension', n > 0))
+        out.append(Cover('nack', n == 0))
+        return out
+
+    def model_info(self, p, m, res):
+        return {'class': 'deadline-base-instant', 'seconds': model_value(m, res['n'])} if res and 'n' in res else {}
+
+
+_old_c05 = obligations
+
+
+def obligations(ctx, cfg):
+    return _old_c05(ctx, cfg) + [ParseModifications(ctx, 2 if cfg['tier'] == 'quick' else 3), HandlerBaseInstant(ctx, False), HandlerBaseInstant(ctx, True)]
